@@ -41,7 +41,16 @@ func (d Directive) String() string {
 type Group struct {
 	Dir        string `json:"dir"`
 	Directives []int  `json:"directives"`
+	// Sources: hand-written non-test .go files of the directory (no generated-code header). A
+	// gombok directory with >= 2 of them is "order sensitive": go/packages parses the files of
+	// a package concurrently, so anything the generator derives from cross-file positions or
+	// from the order in which it meets declarations can differ between runs.
+	Sources int  `json:"sources"`
+	Gombok  bool `json:"gombok"`
 }
+
+// OrderSensitive: the unit gets the larger number of repeated process starts.
+func (g Group) OrderSensitive() bool { return g.Gombok && g.Sources >= 2 }
 
 // GenFile is a file of the snapshot carrying a generated-code header.
 type GenFile struct {
@@ -403,6 +412,30 @@ func parseDirectives(root string) (ds, skipped []Directive, err error) {
 	return ds, skipped, nil
 }
 
+// countSources counts the hand-written non-test Go files of a directory.
+func countSources(dir string) int {
+	es, err := os.ReadDir(dir)
+	if err != nil {
+		return 0
+	}
+	n := 0
+	for _, e := range es {
+		name := e.Name()
+		if e.IsDir() || !strings.HasSuffix(name, ".go") || strings.HasSuffix(name, "_test.go") || strings.HasPrefix(name, ".") || strings.HasPrefix(name, "_") {
+			continue
+		}
+		b, err := os.ReadFile(filepath.Join(dir, name))
+		if err != nil {
+			continue
+		}
+		if ok, _ := generatedHeader(b, true); ok {
+			continue
+		}
+		n++
+	}
+	return n
+}
+
 // ---- setup (runs once, in the wrapper) ------------------------------------------------
 
 func setup(repo, tmp string, start time.Time) error {
@@ -482,6 +515,12 @@ func setup(repo, tmp string, start time.Time) error {
 			p.Groups = append(p.Groups, Group{Dir: d.Dir})
 		}
 		p.Groups[i].Directives = append(p.Groups[i].Directives, d.ID)
+		if d.Generator == "gombok" {
+			p.Groups[i].Gombok = true
+		}
+	}
+	for i := range p.Groups {
+		p.Groups[i].Sources = countSources(filepath.Join(base, filepath.FromSlash(p.Groups[i].Dir)))
 	}
 	s, err := snap(base)
 	if err != nil {
